@@ -411,4 +411,15 @@ def rule_value_ranges(ctx, rule, vs):
                 rep.fail(rule, '%s:%s:%s:value-out-of-range-of-declared-type' % (rule, sk, name), '%s (%s)' % (v.name, os.path.basename(v.src)),
                          'flex declares %s as %s[] (range %d..%d) but writes the value %d at index %d: the compiler converts it silently and the scanner uses a different table than flex computed'
                          % (name, ty, rng[0], rng[1], bad[1], bad[0]), replay_input=v.spec(), variant=v.describe())
+        # scalar constants emitted as typed objects (c99-style back ends): the written value must survive the conversion
+        for m in re.finditer(r'^(?:static )?const (int|unsigned int|char|bool) (YY_[A-Z_]+|yy[A-Za-z_]+) = (-?\d+);', src, re.M):
+            n += 1
+            ty, name, val = m.group(1), m.group(2), int(m.group(3))
+            sk = {'c99': 'c99-flex.skl', 'go': 'go-flex.skl'}.get(v.backend, 'cpp-flex.skl')
+            if _as_stored(ty, val) == val:
+                rep.ok(rule, '%s: const %s %s = %d fits its declared type' % (v.name, ty, name, val))
+            else:
+                rep.fail(rule, '%s:%s:%s:constant-out-of-range-of-declared-type' % (rule, sk, name), '%s (%s)' % (v.name, os.path.basename(v.src)),
+                         'flex declares %s as const %s but writes the value %d: the compiled scanner sees %d' % (name, ty, val, _as_stored(ty, val)),
+                         replay_input=v.spec(), variant=v.describe())
     return n
